@@ -160,6 +160,8 @@ func c16Check(c c16Case) string {
 	cli := runCLI(c)
 	head := fmt.Sprintf("gtree %s %q input=%s stdout=%s doc=%q\n", c.Sub, c.Args, c.Input, c.Stdout, truncate(string(c.Doc), 300))
 	if cli.infra != "" {
+		ops.InfraCount.Add(1)
+		ops.LastInfra.Store(cli.infra)
 		return ""
 	}
 	if cli.signaled || bytes.Contains(cli.stderr, []byte("goroutine 1 [")) || bytes.Contains(cli.stderr, []byte("panic:")) {
